@@ -60,6 +60,49 @@ def run_models(tier, chk=None, universes=None):
     return out
 
 
+SEQ_CFG = """SPECIFICATION Spec
+CONSTANT LineSeps <- PyLineSeps
+CONSTANT MaxLen = %d
+CONSTANT EMIT = TRUE
+INVARIANT Correct
+INVARIANT Optimal
+INVARIANT EmptyIffEqual
+INVARIANT InContract
+CONSTRAINT Emit
+CHECK_DEADLOCK FALSE
+"""
+
+
+def seq_diff_model(chk, maxlen):
+    """TLC checks the transcribed list differ on every pair; its diffs are compared with nbdime's (model drift)."""
+    import json
+    from nbdime.diffing.generic import diff
+    from .encode import enc_diff
+    r = tlc.run("SeqDiffModel", SEQ_CFG % maxlen, workers=1, timeout=1800, name="SeqDiffModel", xmx="6g")
+    if r.invariant_violated or r.error:
+        raise tlc.TLCError("SeqDiffModel: %s\n%s" % (r.error, r.out[-1500:]))
+    chk.add_model(r, "SeqDiffModel MaxLen=%d (all pairs of lists over 4 atoms)" % maxlen)
+    seen = set()
+    n = drift = 0
+    first = None
+    for c in r.json_lines("DIFF"):
+        key = json.dumps([c["a"], c["b"]], sort_keys=True)
+        if key in seen:
+            continue
+        seen.add(key)
+        a, b = dec(c["a"]), dec(c["b"])
+        n += 1
+        try:
+            got = enc_diff(diff(a, b))
+        except Exception as e:  # noqa
+            got = "raised %s" % type(e).__name__
+        exp = c["d"] if isinstance(c["d"], list) else []
+        if json.dumps(got, sort_keys=True) != json.dumps(exp, sort_keys=True):
+            drift += 1
+            first = first or {"a": a, "b": b}
+    chk.notes["SeqDiffAlgo_vs_nbdime"] = {"pairs_compared": n, "model_drift": drift, "first_drift": first}
+
+
 def replay_cases(chk, cases, patcher, label):
     """spec -> code: nbdime.patch(a, d) must equal the spec's Patch(a, d)."""
     n = 0
@@ -129,6 +172,7 @@ def run():
     chk = Check("C02")
     tier = chk.tier
     models = run_models(tier, chk)
+    seq_diff_model(chk, 2 if chk.quick else 3)
 
     # ---- spec -> code ------------------------------------------------------
     nrep = 0
